@@ -89,6 +89,11 @@ pub fn engine_config(cfg: &TeCfg, data_dir: Option<String>) -> TieredEngineConfi
         snapshot_interval: 3,
         max_wal_size_bytes: 1,
         flush_interval: Duration::from_nanos(1),
+        // generous tier timeouts: the statement exempts answers produced under a timeout, and a
+        // loaded machine must not turn ordinary answers into degraded ones
+        cache_timeout_ms: 60_000,
+        hot_tier_timeout_ms: 60_000,
+        cold_tier_timeout_ms: 60_000,
         ..TieredEngineConfig::default()
     }
 }
